@@ -111,7 +111,9 @@ class Context:
     # ------------------------------------------------------------------ pool
     def _pool(self):
         if self.pool is None:
-            self.pool = cf.ProcessPoolExecutor(self.workers, mp_context=mp.get_context("spawn"))
+            ctx = mp.get_context("forkserver")
+            ctx.set_forkserver_preload(["mc.preload"])  # abTEM is imported once in the fork server, workers fork from it
+            self.pool = cf.ProcessPoolExecutor(self.workers, mp_context=ctx)
         return self.pool
 
     def close(self):
